@@ -161,6 +161,9 @@ def make_weights(sizes, kind, seed=0):
         w = [1.0] * len(idx)
         w[len(idx) // 2] = 8.0
         return w
+    if kind == 'le1':
+        # all <= 1, the first one equal to 1 (circular arcs: 1, sqrt(2)/2, 1)
+        return [1.0 if n % 2 == 0 else 0.5 for n in range(len(idx))]
     if kind == 'seeded':
         rnd = random.Random(seed * 104729 + len(idx))
         return [rnd.choice([0.25, 0.5, 1.0, 2.0, 3.0]) for _ in idx]
